@@ -2,6 +2,7 @@ import VaxisModel.Driver.Common
 import VaxisModel.Driver.C03
 import VaxisModel.Model.Width
 import VaxisModel.Model.Startup
+import VaxisModel.Gen.Sequences
 
 /-! Driver for C07 capability detection and width method. Lines:
   caps <19 advertised bits, MSB first = xtversion … LSB = sixel> <initcol> <kitty>  \t <17 detected bits> <7 Can* bits>
@@ -131,6 +132,51 @@ def stepStart (op impl : String) : String :=
     | _, _ => "bad-op\tbad-op\tbad-op"
   | _ => "bad-op\tbad-op\tbad-op"
 
+/-! ### API writers -/
+
+def b64Alphabet : Array Char := "ABCDEFGHIJKLMNOPQRSTUVWXYZabcdefghijklmnopqrstuvwxyz0123456789+/".toList.toArray
+
+/-- RFC 4648 base64 with padding (spec side: what `ClipboardPush` must put into OSC 52). -/
+def base64 : List Nat → List Char
+  | [] => []
+  | [a] => [b64Alphabet[a / 4]!, b64Alphabet[a % 4 * 16]!, '=', '=']
+  | [a, b] => [b64Alphabet[a / 4]!, b64Alphabet[a % 4 * 16 + b / 16]!, b64Alphabet[b % 16 * 4]!, '=']
+  | a :: b :: c :: r => b64Alphabet[a / 4]! :: b64Alphabet[a % 4 * 16 + b / 16]! :: b64Alphabet[b % 16 * 4 + c / 64]! :: b64Alphabet[c % 64]! :: base64 r
+
+/-- `fmt.Sprintf(f, args…)` for templates with `%s` / `%d` verbs only. -/
+def substVerbs : List Char → List String → List Char
+  | '%' :: 's' :: r, a :: as => a.toList ++ substVerbs r as
+  | '%' :: 'd' :: r, a :: as => a.toList ++ substVerbs r as
+  | c :: r, as => c :: substVerbs r as
+  | [], _ => []
+
+def bytesHex (l : List Char) : String :=
+  if l.isEmpty then "-" else hexOfBytes (l.map fun c => c.toNat)
+
+def strOfHex (h : String) : String :=
+  if h == "-" then "" else match hexBytes? h with
+    | some bs => String.ofList (bs.map fun b => Char.ofNat b)
+    | none => ""
+
+open VaxisModel.Gen.Sequences in
+/-- What the call must put on the wire: the sequences.go template of the API with the caller's
+arguments — and nothing for a colour query the terminal did not advertise. -/
+def apiExpected (adv name a b : String) : Option String :=
+  let bit (i : Nat) : Bool := (adv.toList.reverse.getD i '0') == '1'
+  let f (t : String) (args : List String) : Option String := some (bytesHex (substVerbs t.toList args))
+  match name with
+  | "clipboard-push" => f «osc52put» [String.ofList (base64 (a.toList.map Char.toNat))]
+  | "clipboard-pop" => f «osc52pop» []
+  | "notify" => if a == "" then f «osc9notify» [b] else f «osc777notify» [a, b]
+  | "title" => f «setTitle» [a]
+  | "appid" => f «setAppID» [a]
+  | "bell" => some "07"
+  | "cursorpos" => f «dsrcpr» []
+  | "qcolor" => if bit 8 then f «osc4» [a] else some "-"
+  | "qfg" => if bit 9 then f «osc10» [] else some "-"
+  | "qbg" => if bit 10 then f «osc11» [] else some "-"
+  | _ => none
+
 def step (line : String) : String :=
   let (op, impl) := splitTab line
   if op.startsWith "start " then stepStart op impl else
@@ -144,6 +190,14 @@ def step (line : String) : String :=
         | some d => s!"FAIL capability {d}"
         | none => s!"FAIL Can* accessors {impl} do not reflect the detected capabilities {want}"
       s!"{want}\t{impl}\t{v}"
+  | ["api", adv, name, a, b] =>
+      match apiExpected adv name (strOfHex ((a.drop 2).toString)) (strOfHex ((b.drop 2).toString)) with
+      | some want =>
+        let v := if want == impl then "ok"
+          else if want == "-" then s!"FAIL {name} wrote {impl} although the terminal did not advertise the report it queries"
+          else s!"FAIL {name} must write exactly {want}, wrote {impl}"
+        s!"{want}\t{impl}\t{v}"
+      | none => "bad-op\tbad-op\tbad-op"
   | ["width", u, e, z, _, wc, nz, std] =>
       let m := VaxisModel.Model.Width.widthMethod (u == "1") (e == "1") (z == "1")
       let want := match m with | .unicodeStd => std | .noZWJ => nz | .wcwidth => wc
